@@ -13,6 +13,9 @@
  *                                    (witness byte)
  *   C19.id_table.frame             nothing of the original changed (header,
  *                                    array descriptor, entry bytes)
+ *   C19.id_table.answers_equal     sqfs_id_table_index_to_id gives the same
+ *                                    answer on copy and original for every
+ *                                    index (symbolic)
  *   C19.id_table.independent       a write through the copy is not seen by
  *                                    the original and vice versa
  *   C19.id_table.release.*         drop both in either order: hooks
@@ -30,4 +33,13 @@
 #define TBL_DESTROY id_table_destroy
 #define TBL_COPY id_table_copy
 #define ESZ sizeof(sqfs_u32)
+static bool id_answers_eq(const sqfs_id_table_t *a, const sqfs_id_table_t *b, sqfs_u32 idx)
+{
+	sqfs_u32 x = 0, y = 0;
+	int ra = sqfs_id_table_index_to_id(a, (sqfs_u16)(idx & 0xFFFF), &x);
+	int rb = sqfs_id_table_index_to_id(b, (sqfs_u16)(idx & 0xFFFF), &y);
+
+	return ra == rb && (ra != 0 || x == y);
+}
+#define TBL_ANSWERS_EQ(o, c, i) id_answers_eq(o, c, i)
 #include "array_table.inc.h"
